@@ -31,8 +31,9 @@ pub mod c15;
 pub mod c16;
 pub mod c17;
 pub mod c18;
+pub mod c19;
 
-pub const ALL: &[&str] = &["C01", "C02", "C03", "C04", "C05", "C09", "C10", "C11", "C14", "C15", "C16", "C17", "C18"];
+pub const ALL: &[&str] = &["C01", "C02", "C03", "C04", "C05", "C09", "C10", "C11", "C14", "C15", "C16", "C17", "C18", "C19"];
 
 pub fn lookup(id: &str) -> Option<Prop> {
     match id {
@@ -49,6 +50,7 @@ pub fn lookup(id: &str) -> Option<Prop> {
         "C16" => Some(Prop { id: "C16", spec: c16::spec, run: c16::run, replay: c16::replay }),
         "C17" => Some(Prop { id: "C17", spec: c17::spec, run: c17::run, replay: c17::replay }),
         "C18" => Some(Prop { id: "C18", spec: c18::spec, run: c18::run, replay: c18::replay }),
+        "C19" => Some(Prop { id: "C19", spec: c19::spec, run: c19::run, replay: c19::replay }),
         _ => None,
     }
 }
